@@ -214,7 +214,7 @@ fn declare_spaces(rep: &mut Report, quick: bool) {
         "writer-generated files: 7 readers {jaspar, jaspar16 dna/protein, transfac dna/protein, uniprobe dna/protein} x file menu \
          [single records: widths {1,2,7,25} x content modes {wiring codes (all cells of a record distinct), magnitude menu {0,1,9,10,99999,u32::MAX} cycled over cells, ten-digit values, all zero}; \
          every column layout (all 24 orders of ACGT + 3 layouts naming the wildcard; 4 layouts for protein); every metadata presence mask (description; AC/ID/NA/DE: 16 masks); every writer style (separators, padding, TRANSFAC decoration lines, blank lines); \
-         lists of 2,3,5,17,64,300 records rotating all of these per record; CRLF variants; optional VV header] \
+         lists of 2,3,5,17,64,300 records rotating all of these per record (quick tier: 300-record files for the DNA readers only, width 1, compact styles; protein lists up to 17 records; thorough adds 64- and 300-record protein files and 300-record DNA files of widths 1,2,7 with every style, 20-170 KB); CRLF variants; optional VV header] \
          x {no cut, every single cut position 1..len-1} enumerated by the deviation-bounded choice explorer (bound 1) over the scripted BufRead's fill_buf answers; \
          oracle: exactly the written records in order (id/accession/name/description as written, every entry at (position, symbol column), other columns 0; TRANSFAC entries as f32 and to_counts() when all counts are exact in f32; UniPROBE entries = the printed shortest-round-trip f32), then None twice; \
          non-trivial = every execution (a 0-cut run is the content check of its file)",
@@ -282,7 +282,7 @@ fn run_generated(ctx: &mut Ctx, rep: &mut Report, base: &mut u64) {
             let file = GenFile::from_spec(spec);
             let f = &file;
             let len = file.bytes.len();
-            let t_file = std::time::Instant::now();
+            let t_file = std::time::Instant::now(); // only read when VX_IO_TIMING is set (menu sizing aid)
             let nb = nblocks(len);
             let mut whole_ok: Option<bool> = None;
             // --- single cuts, in nb strided blocks
@@ -293,6 +293,7 @@ fn run_generated(ctx: &mut Ctx, rep: &mut Report, base: &mut u64) {
                     continue;
                 }
                 watch::beat(14, ri as u64, fi as u64, b as u64);
+                ctx.crumb(|| format!("C14 single cuts file={} block={}/{}", f.label, b, nb));
                 let block: Vec<usize> = (1..len).filter(|p| p % nb == b).collect();
                 rep.space(SP_CUT1, "");
                 if b == 0 {
@@ -311,6 +312,7 @@ fn run_generated(ctx: &mut Ctx, rep: &mut Report, base: &mut u64) {
                 *base += 1;
                 if ctx.mine(idx) {
                         watch::beat(14, ri as u64, fi as u64, 1000);
+                    ctx.crumb(|| format!("C14 pairs file={}", f.label));
                     rep.space(SP_CUT2, "");
                     rep.sample_space(2, || json!({"file": f.label, "len": len, "records": f.recs.len(), "chunkings": format!("all {} pairs of cut positions", (len.saturating_sub(1)) * (len.saturating_sub(2)) / 2)}));
                     explore_file(f, 2, None, None, false, 2, rep, &mut tally, &mut whole_ok);
@@ -322,6 +324,7 @@ fn run_generated(ctx: &mut Ctx, rep: &mut Report, base: &mut u64) {
                 *base += 1;
                 if ctx.mine(idx) {
                         watch::beat(14, ri as u64, fi as u64, 2000);
+                    ctx.crumb(|| format!("C14 triples file={}", f.label));
                     let pos = structure_positions(&f.bytes);
                     rep.space(SP_CUT3, "");
                     rep.sample_space(2, || json!({"file": f.label, "len": len, "admissible_cut_positions": pos}));
@@ -334,6 +337,7 @@ fn run_generated(ctx: &mut Ctx, rep: &mut Report, base: &mut u64) {
             *base += 1;
             if ctx.mine(idx) {
                 watch::beat(14, ri as u64, fi as u64, 3000);
+                ctx.crumb(|| format!("C14 uniform file={}", f.label));
                 rep.space(SP_UNIFORM, "");
                 rep.sample_space(2, || json!({"file": f.label, "len": len, "chunk_sizes": format!("1..={} and 4096, 8192", len.min(128))}));
                 let plan = f.plan();
